@@ -1,0 +1,203 @@
+//! Verification facade, only compiled with the `verif` cargo feature (off by default).
+//!
+//! It gives an external monitoring harness access to the crate-private step functions of
+//! [`Chitchat`], to the delta computation for an arbitrary budget, to the peer selection
+//! function and to a plain-data view of a decoded [`ChitchatMessage`]. It also makes the
+//! equal-staleness shuffle reproducible. Nothing here changes the behaviour of the wrapped
+//! functions.
+
+use std::cell::RefCell;
+use std::collections::HashSet;
+use std::net::SocketAddr;
+
+use rand::prelude::StdRng;
+use rand::{Rng, SeedableRng};
+
+use crate::delta::Delta;
+use crate::digest::Digest;
+use crate::serialize::{Deserializable, Serializable};
+use crate::types::DeletionStatusMutation;
+use crate::{Chitchat, ChitchatId, ChitchatMessage};
+
+thread_local! {
+    static SHUFFLE_RNG: RefCell<StdRng> = RefCell::new(StdRng::seed_from_u64(0));
+}
+
+/// Seeds the (thread local) generator from which every equal-staleness shuffle draws.
+pub fn set_shuffle_seed(seed: u64) {
+    SHUFFLE_RNG.with(|rng| *rng.borrow_mut() = StdRng::seed_from_u64(seed));
+}
+
+pub(crate) fn shuffle_rng() -> StdRng {
+    SHUFFLE_RNG.with(|rng| StdRng::seed_from_u64(rng.borrow_mut().next_u64()))
+}
+
+impl Chitchat {
+    pub fn verif_create_syn_message(&self) -> ChitchatMessage {
+        self.create_syn_message()
+    }
+
+    pub fn verif_process_message(&mut self, msg: ChitchatMessage) -> Option<ChitchatMessage> {
+        self.process_message(msg)
+    }
+
+    pub fn verif_update_nodes_liveness(&mut self) {
+        self.update_nodes_liveness()
+    }
+
+    pub fn verif_gc_keys_marked_for_deletion(&mut self) {
+        self.gc_keys_marked_for_deletion()
+    }
+
+    pub fn verif_update_self_heartbeat(&mut self) {
+        self.update_self_heartbeat()
+    }
+
+    /// Computes the delta this node would send to a peer that advertised `digest_bytes`
+    /// (a serialized digest), within a budget of `mtu` bytes, and returns its serialization.
+    pub fn verif_compute_delta(&self, digest_bytes: &[u8], mtu: usize) -> anyhow::Result<Vec<u8>> {
+        let mut cursor = digest_bytes;
+        let digest = Digest::deserialize(&mut cursor)?;
+        anyhow::ensure!(cursor.is_empty(), "trailing bytes after the digest");
+        let scheduled_for_deletion: HashSet<&ChitchatId> =
+            self.scheduled_for_deletion_nodes().collect();
+        let delta = self.cluster_state().compute_partial_delta_respecting_mtu(
+            &digest,
+            mtu,
+            &scheduled_for_deletion,
+        );
+        let bytes = delta.serialize_to_vec();
+        anyhow::ensure!(
+            bytes.len() == delta.serialized_len(),
+            "announced length differs from written length"
+        );
+        Ok(bytes)
+    }
+}
+
+/// See `server::select_nodes_for_gossip`.
+pub fn select_nodes_for_gossip<R>(
+    rng: &mut R,
+    peer_nodes: HashSet<SocketAddr>,
+    live_nodes: HashSet<SocketAddr>,
+    dead_nodes: HashSet<SocketAddr>,
+    seed_nodes: HashSet<SocketAddr>,
+) -> (Vec<SocketAddr>, Option<SocketAddr>, Option<SocketAddr>)
+where
+    R: Rng + ?Sized,
+{
+    crate::server::verif_select_nodes_for_gossip(rng, peer_nodes, live_nodes, dead_nodes, seed_nodes)
+}
+
+#[derive(Clone, Debug, Eq, PartialEq)]
+pub struct NodeDigestView {
+    pub chitchat_id: ChitchatId,
+    pub heartbeat: u64,
+    pub last_gc_version: u64,
+    pub max_version: u64,
+}
+
+#[derive(Clone, Debug, Eq, PartialEq)]
+pub struct KeyValueView {
+    pub key: String,
+    pub value: String,
+    pub version: u64,
+    /// 0 = set, 1 = deleted, 2 = delete after ttl.
+    pub status: u8,
+}
+
+#[derive(Clone, Debug, Eq, PartialEq)]
+pub struct NodeDeltaView {
+    pub chitchat_id: ChitchatId,
+    pub from_version_excluded: u64,
+    pub last_gc_version: u64,
+    pub max_version: u64,
+    pub key_values: Vec<KeyValueView>,
+}
+
+#[derive(Clone, Debug, Eq, PartialEq)]
+pub struct DeltaView {
+    pub node_deltas: Vec<NodeDeltaView>,
+    pub serialized_len: usize,
+}
+
+/// Plain-data copy of a message, so that a harness can compare a decoded message with what it
+/// expected without relying on private fields or on `Debug` output.
+#[derive(Clone, Debug, Eq, PartialEq)]
+pub enum MessageView {
+    Syn {
+        cluster_id: String,
+        digest: Vec<NodeDigestView>,
+    },
+    SynAck {
+        digest: Vec<NodeDigestView>,
+        delta: DeltaView,
+    },
+    Ack {
+        delta: DeltaView,
+    },
+    BadCluster,
+}
+
+fn digest_view(digest: &Digest) -> Vec<NodeDigestView> {
+    digest
+        .node_digests
+        .iter()
+        .map(|(chitchat_id, node_digest)| NodeDigestView {
+            chitchat_id: chitchat_id.clone(),
+            heartbeat: node_digest.heartbeat.into(),
+            last_gc_version: node_digest.last_gc_version,
+            max_version: node_digest.max_version,
+        })
+        .collect()
+}
+
+fn delta_view(delta: &Delta) -> DeltaView {
+    let node_deltas = delta
+        .node_deltas
+        .iter()
+        .map(|node_delta| NodeDeltaView {
+            chitchat_id: node_delta.chitchat_id.clone(),
+            from_version_excluded: node_delta.from_version_excluded,
+            last_gc_version: node_delta.last_gc_version,
+            max_version: node_delta.max_version,
+            key_values: node_delta
+                .key_values
+                .iter()
+                .map(|key_value| KeyValueView {
+                    key: key_value.key.clone(),
+                    value: key_value.value.clone(),
+                    version: key_value.version,
+                    status: match key_value.status {
+                        DeletionStatusMutation::Set => 0,
+                        DeletionStatusMutation::Delete => 1,
+                        DeletionStatusMutation::DeleteAfterTtl => 2,
+                    },
+                })
+                .collect(),
+        })
+        .collect();
+    DeltaView {
+        node_deltas,
+        serialized_len: delta.serialized_len(),
+    }
+}
+
+pub fn message_view(message: &ChitchatMessage) -> MessageView {
+    match message {
+        ChitchatMessage::Syn { cluster_id, digest } => MessageView::Syn {
+            cluster_id: cluster_id.clone(),
+            digest: digest_view(digest),
+        },
+        ChitchatMessage::SynAck { digest, delta } => MessageView::SynAck {
+            digest: digest_view(digest),
+            delta: delta_view(delta),
+        },
+        ChitchatMessage::Ack { delta } => MessageView::Ack {
+            delta: delta_view(delta),
+        },
+        ChitchatMessage::BadCluster => MessageView::BadCluster,
+        #[cfg(test)]
+        ChitchatMessage::PanicForTest => MessageView::BadCluster,
+    }
+}
